@@ -99,8 +99,11 @@ pub fn check(case: &Case, obs: &mut Obs) -> Verdict {
         obs.out = Some(J::s(&got));
     }
     let want = ref_dedent(s);
-    if got != want {
-        return Verdict::Violated(format!("dedent({:?}) = {:?}, expected {:?}", s, got, want));
+    // the statement fixes line contents, number of lines and presence of a final newline, not the kind of line
+    // terminator: compare line by line (str::lines accepts LF and CRLF) plus newline count and final newline
+    let same_lines = got.lines().eq(want.lines());
+    if !same_lines || got.matches('\n').count() != want.matches('\n').count() || got.ends_with('\n') != want.ends_with('\n') {
+        return Verdict::Violated(format!("dedent({:?}) = {:?}, expected (up to the kind of line terminator) {:?}", s, got, want));
     }
     let has_cr = s.contains('\r');
     if !has_cr {
@@ -117,7 +120,7 @@ pub fn check(case: &Case, obs: &mut Obs) -> Verdict {
             let ind = textwrap::indent(s, p);
             let d = textwrap::dedent(&ind);
             obs.calls += 2;
-            if d != got {
+            if !d.lines().eq(got.lines()) || d.ends_with('\n') != got.ends_with('\n') {
                 return Verdict::Violated(format!("dedent(indent(s, {:?})) = {:?} != dedent(s) = {:?} for s = {:?}", p, d, got, s));
             }
             obs.bump("indent_dedent_checked");
